@@ -96,6 +96,7 @@ class Comps:
     def owner(self, op, block=None):
         """component an operand is an alias of (or, failing that, the single field whose `Some` region holds block)"""
         if op is not None and op[0] != "k":
+            op = sf.through_tuple(self.body, op)
             hit = sorted(cn for cn, t in self.t.items() if t.is_alias(op))
             if len(hit) == 1:
                 return hit[0], "alias"
@@ -518,7 +519,6 @@ def run(ctx):
                    "%s accepts arbitrary text (setter %s never rejects it) and Display writes it verbatim between single quotes: "
                    "a value containing `'` or `,` does not parse back" % (comp, free[comp][0].rsplit("::", 1)[1]) if raw else
                    "%s passes through a computation before being written between the quotes" % comp, call.where)
-    t_in = sf.Taint(P, {1}, view=slice_view)
     # views of the input also come out of the splitting iterator: everything the parser hands to a setter that is
     # still a sub-slice of the input (split / split_once / index / trim) counts as raw text
     raw_t = sf.Taint(P, {1}, view=lambda c: slice_view(c) or c.is_("split", "split_once", "rsplit_once", "next", "into_iter", "branch",
@@ -526,7 +526,7 @@ def run(ctx):
                                                                      "strip_suffix", "splitn", "split_terminator"))
     for comp, (mid, call, pat) in sorted(free.items()):
         vop = call.args[-1]
-        raw = raw_t.is_alias(vop) and not raw_t.is_comp(vop)
+        raw = raw_t.is_alias(vop)
         ctx.ob("E-ESCAPE", "parse:" + comp, not raw,
                "the text between the quotes of `%s` is handed to %s as a plain sub-slice of the input: no unescaping "
                "(and the input was already split on ',')" % (pat, mid.rsplit("::", 1)[1]) if raw else
